@@ -36,7 +36,7 @@ def main():
     except core.InfraError as e:
         print(f"INFRA-ERROR [{pid}]: {e}", file=sys.stderr)
         sys.exit(2)
-    except Exception:
+    except (Exception, core.CaseTimeout):
         traceback.print_exc()
         print(f"INFRA-ERROR [{pid}]: harness crashed", file=sys.stderr)
         sys.exit(2)
